@@ -17,7 +17,7 @@ Interfaces: PerformanceConfig(enabled: bool = True), from_dict class method for 
 Implementation: Dataclass with validation and defaults, simple enabled flag (extensible)
 """
 
-from dataclasses import dataclass
+from dataclasses import dataclass, field
 from typing import Any
 
 
@@ -26,6 +26,7 @@ class PerformanceConfig:
     """Configuration for performance linter rules."""
 
     enabled: bool = True
+    ignore: list[str] = field(default_factory=list)  # Path patterns to skip
 
     @classmethod
     def from_dict(cls, config: dict[str, Any], language: str | None = None) -> "PerformanceConfig":
@@ -40,4 +41,5 @@ class PerformanceConfig:
         """
         return cls(
             enabled=config.get("enabled", True),
+            ignore=list(config.get("ignore", [])),
         )
